@@ -25,6 +25,10 @@ extern int mpt_parse_config(MPT_TYPE(input_parser) next, void *npar, MPT_STRUCT(
 	MPT_STRUCT(value) val = MPT_VALUE_INIT(MPT_type_toVector('c'), &vec);
 	int ret;
 	
+	/* state of a previous run belongs to a path that no longer exists */
+	parse->valid = 0;
+	parse->curr  = 0;
+	
 	/* accuire next path element */
 	while ((ret = next(npar, parse, &path)) > 0) {
 		vec.iov_base = (char *) (path.base + path.off + path.len);
